@@ -10,11 +10,15 @@
   `linkBlocks_ok_iff`: the block part succeeds exactly when no start occurs in both files and the union of the blocks is
   pairwise disjoint (on a sorted map the neighbour-only overlap test finds every overlapping pair: `adjacent_iff_pairwise`);
   `linkBlocks_members`: the result then holds exactly the blocks of both files.
-  Not proved: order-independence of the merged label / relocation tables and of nested links (associativity); the correspondence check links generated sets of 2–4 files
+  `labels_order_independent` (Lemmas/LinkPatch.lean `linkFold_pointwise`): the merged label table is determined key by key
+  (A's entry, B's entry ↦ combined entry), so when both orders succeed every key has the same address and external flag.
+  Not proved: order-independence of the pending relocation table and of nested links (associativity), and that the label
+  folds of the two orders fail together; the correspondence check links generated sets of 2–4 files
   in every order and bracketing and compares outcomes with each other and with a reference union.
 -/
 import Lc3V.Lemmas.SortedMap
 import Lc3V.Props.C21
+import Lc3V.Lemmas.LinkPatch
 set_option linter.unusedSimpArgs false
 namespace Lc3V.C20
 open Lc3V
@@ -187,8 +191,85 @@ theorem linkBlocks_members (a b r : Blocks) (ha : SortedKeys a) (hb : SortedKeys
       rw [linkFold_fst]
       exact mem_insAll b a ha hb hok.1
 
+/-! ### the merged label table does not depend on the order -/
+
+theorem lookupKey_none_iff (m : List (Key × SymData)) (K : Key) : lookupKey m K = none → ∀ e ∈ m, (e.1 == K) = false := by
+  intro h e he
+  unfold lookupKey at h
+  have : m.find? (fun e => e.1 == K) = none := by
+    cases hf : m.find? (fun e => e.1 == K) with
+    | none => rfl
+    | some x => rw [hf] at h; cases h
+  have := List.find?_eq_none.mp this e he
+  simpa using this
+
+theorem lookupKey_some_mem (m : List (Key × SymData)) (K : Key) (d : SymData) (h : lookupKey m K = some d) : (K, d) ∈ m := by
+  unfold lookupKey at h
+  cases hf : m.find? (fun e => e.1 == K) with
+  | none => rw [hf] at h; cases h
+  | some x =>
+    rw [hf] at h
+    simp only [Option.map_some, Option.some.injEq] at h
+    have hx := List.find?_some hf
+    have hm := List.mem_of_find?_eq_some hf
+    have : x.1 = K := by simpa using hx
+    rw [← this, ← h]
+    exact hm
+
+/-- the part of a table entry that must not depend on the link order: address and external flag -/
+def core (d : SymData) : W × Bool := (d.addr, d.ext)
+
+/-- **order independence of the merged labels**: if both `link a b` and `link b a` get through their label folds, every key
+    has the same address and external flag in both results (source positions differ by the shift of the combined source).
+    Tables have unique keys and external declarations carry address 0, as in every assembled file. -/
+theorem labels_order_independent (f g : Key × SymData → Key × SymData)
+    (hf : ∀ e, (f e).1 = e.1 ∧ core (f e).2 = core e.2) (hg : ∀ e, (g e).1 = e.1 ∧ core (g e).2 = core e.2)
+    (la lb : List (Key × SymData)) (hua : la.Pairwise (fun x y => (x.1 == y.1) = false)) (hub : lb.Pairwise (fun x y => (x.1 == y.1) = false))
+    (hza : ∀ e ∈ la, e.2.ext = true → e.2.addr = 0) (hzb : ∀ e ∈ lb, e.2.ext = true → e.2.addr = 0)
+    (ra rb : List (W × Key)) (sab sba : LinkSt)
+    (hab : lb.foldlM (fun s e => linkLabel s (f e)) ⟨la, ra, []⟩ = .ok sab)
+    (hba : la.foldlM (fun s e => linkLabel s (g e)) ⟨lb, rb, []⟩ = .ok sba) (K : Key) :
+    (lookupKey sab.labels K).map core = (lookupKey sba.labels K).map core := by
+  obtain ⟨p1, p2, p3⟩ := linkFold_pointwise f (fun e => (hf e).1) lb _ sab hub hab
+  obtain ⟨q1, q2, q3⟩ := linkFold_pointwise g (fun e => (hg e).1) la _ sba hua hba
+  simp only at p1 p2 p3 q1 q2 q3
+  have cf : ∀ e, core (f e).2 = core e.2 := fun e => (hf e).2
+  have cg : ∀ e, core (g e).2 = core e.2 := fun e => (hg e).2
+  cases hla : lookupKey la K with
+  | none =>
+    cases hlb : lookupKey lb K with
+    | none =>
+      rw [p1 K (lookupKey_none_iff lb K hlb), q1 K (lookupKey_none_iff la K hla), hla, hlb]
+    | some bd =>
+      have hm := lookupKey_some_mem lb K bd hlb
+      rw [p2 (K, bd) hm, q1 K (lookupKey_none_iff la K hla), hla, hlb]
+      simp only [combineSym, Option.map_some]
+      rw [cf (K, bd)]
+  | some ad =>
+    have hma := lookupKey_some_mem la K ad hla
+    cases hlb : lookupKey lb K with
+    | none =>
+      rw [p1 K (lookupKey_none_iff lb K hlb), q2 (K, ad) hma, hla, hlb]
+      simp only [combineSym, Option.map_some]
+      rw [cg (K, ad)]
+    | some bd =>
+      have hmb := lookupKey_some_mem lb K bd hlb
+      rw [p2 (K, bd) hmb, q2 (K, ad) hma, hla, hlb]
+      have e1 := cf (K, bd)
+      have e2 := cg (K, ad)
+      simp only [core, Prod.mk.injEq] at e1 e2
+      have sameAB := p3 (K, bd) hmb ad hla
+      have za := hza (K, ad) hma
+      have zb := hzb (K, bd) hmb
+      simp only at sameAB za zb
+      simp only [combineSym, Option.map_some, core]
+      cases hae : ad.ext <;> cases hbe : bd.ext <;> simp [hae, hbe, e1.2, e2.2, e1.1, e2.1]
+      · have := sameAB hae (by rw [e1.2]; exact hbe)
+        rw [this, e1.1]
+      · rw [za hae, zb hbe]
+
 def obligations : List Lean.Name :=
-  [``adjacent_iff_pairwise, ``linkBlocks_ok_iff, ``linkBlocks_members, ``rangesOverlap_comm, ``Lc3V.mem_insAll, ``linkFold_dup, ``linkBlocks_comm, ``linkBlocks_sorted, ``C21.link_resolves, ``C21.patch_sets_word,
+  [``labels_order_independent, ``Lc3V.linkFold_pointwise, ``adjacent_iff_pairwise, ``linkBlocks_ok_iff, ``linkBlocks_members, ``rangesOverlap_comm, ``Lc3V.mem_insAll, ``linkFold_dup, ``linkBlocks_comm, ``linkBlocks_sorted, ``C21.link_resolves, ``C21.patch_sets_word,
    ``Lc3V.mem_insertSortedBy, ``Lc3V.sorted_insertSortedBy, ``Lc3V.sorted_ext]
 
 end Lc3V.C20
